@@ -95,6 +95,33 @@ class Activation:
         return a
 
 
+NATIVE_BODY = {"vars": [{"name": "acc", "place": {"local": 3, "proj": []}}], "blocks": [], "locals": [], "arg_count": 0}
+
+
+class NativeActivation(Activation):
+    """An iterator combinator that runs a closure per item (try_fold, try_for_each, for_each, fold over a table) executed
+    on the evaluator's own stack, so that the closure may fork, return early or contain protocol-level calls.  Slots of
+    its frame: 1 iterator, 2 closure, 3 accumulator, 4 Option<item> of the last next(), 5 the closure's result.
+    block 0 = loop header (next), 1 = after next, 2 = after the closure."""
+    __slots__ = ("native", "data")
+
+    def __init__(self, fid, native, data, ret_dest, ret_target):
+        site = data.get("w", "?").split(" ")[0]
+        fn = {"path": "native:%s@%s" % (native, site), "name": "Iterator::%s" % native, "body": NATIVE_BODY, "span": None, "type_params": []}
+        Activation.__init__(self, fid, fn, NATIVE_BODY, 0, ret_dest, ret_target, "native:" + native)
+        self.native = native
+        self.data = data
+
+    def copy(self):
+        a = NativeActivation(self.fid, self.native, dict(self.data), self.ret_dest, self.ret_target)
+        a.block = self.block
+        a.visits = dict(self.visits)
+        a.cvisits = dict(self.cvisits)
+        a.stmt = self.stmt
+        a.subst = self.subst
+        return a
+
+
 class State:
     def __init__(self):
         self.frames = {}
@@ -842,9 +869,134 @@ class Evaluator:
     def where(self, act, span):
         return "%s (%s)" % (loc(span), act.fn["name"] if not act.title else act.fn["name"] + "::" + act.title)
 
+    # ---- native iterator combinators ---------------------------------------------------
+    def push_native(self, ci, kind, it, f, acc):
+        st = ci.st
+        if len(st.stack) >= self.MAX_DEPTH:
+            raise Unsupported("inlining depth exceeded at Iterator::%s" % kind)
+        fid = st.next_fid
+        st.next_fid += 1
+        st.frames[fid] = {1: it, 2: f, 3: acc}
+        a = NativeActivation(fid, kind, {"w": ci.w, "rty": ci._sub(ci.dest["ty"])}, ci.dest, ci.target)
+        st.stack.append(a)
+        return [st]
+
+    def native_return(self, st, act, v, w):
+        st.stack.pop()
+        if not st.stack:
+            return [Path("return", v, st)]
+        caller = st.stack[-1]
+        self.store(st, self.place_target(st, caller.fid, act.ret_dest), v, w)
+        caller.block = act.ret_target
+        return [st]
+
+    def native_step(self, st, act):
+        from models import m_iter_next, concrete_step, ok, some, apply_closure
+        fid = act.fid
+        fr = st.frames[fid]
+        kind = act.native
+        w = act.data["w"]
+        rty = act.data.get("rty", "")
+        slot = lambda i: {"local": i, "proj": [], "ty": "?"}
+        if act.block == 0:
+            class _C:
+                pass
+            c0 = _C()
+            c0.ev, c0.st = self, st
+            if concrete_step(c0, fr[1]) is None:
+                r = self.arrive_loop_header(st, act)
+                if r is not None:
+                    return [r]
+            else:
+                n = act.cvisits.get(0, 0) + 1
+                act.cvisits[0] = n
+                if n > 600:
+                    raise Unsupported("Iterator::%s: more than 600 concrete iterations" % kind)
+            fnj = {"name": "core::iter::traits::iterator::Iterator::next", "path": "core::iter::traits::iterator::Iterator::next", "args": [], "item": "next", "trait": "core::iter::traits::iterator::Iterator"}
+            ci = CallInfo(self, st, act, fnj, fnj["name"], [("ref", ("loc", fid, 1, ()), True)], slot(4), 1, w)
+            return self.apply_results(ci, m_iter_next(ci))
+        if act.block == 1:
+            opt = fr[4]
+            if not (opt[0] == "adt" and opt[3] in ("Some", "None")):
+                raise Unsupported("Iterator::%s: next() gave %s" % (kind, fmt_term(opt)[:60]))
+            if opt[3] == "None":
+                acc = fr[3]
+                if kind in ("for_each",):
+                    v = UNIT
+                elif kind == "fold":
+                    v = acc
+                elif kind == "try_for_each":
+                    v = self.try_output(rty, UNIT)
+                else:
+                    v = self.try_output(rty, acc)
+                return self.native_return(st, act, v, w)
+            x = opt[4][0]
+            args = [fr[3], x] if kind in ("fold", "try_fold") else [x]
+            f = fr[2]
+            fv = f
+            while fv[0] == "ref":
+                fv = self.load(st, fv[1])
+            if fv[0] == "closure" and fv[1] in self.prog.fns:
+                cfn = self.prog.fns[fv[1]]
+                selfarg = fv
+                if cfn["body"]["locals"][1]["ty"]["k"] == "ref":
+                    selfarg = f if f[0] == "ref" else ("ref", ("loc", fid, 2, ()), True)
+                self.stats["inlined"].add(cfn["name"])
+                act.block = 2
+                self.push(st, cfn, cfn["body"], [selfarg] + args, slot(5), 2)
+                return [st]
+            if fv[0] == "fn":
+                return self.call_fn(st, act, self.fnrefs[fv[1]], args, slot(5), 2, w)
+            raise Unsupported("Iterator::%s with a callable %s" % (kind, fmt_term(fv)[:40]))
+        if act.block == 2:
+            r = fr[5]
+            if kind == "for_each":
+                act.block = 0
+                return [st]
+            if kind == "fold":
+                fr[3] = r
+                act.block = 0
+                return [st]
+            # Try: Continue on Ok / Some / ControlFlow::Continue, otherwise the combinator returns the closure's result
+            if r[0] == "adt":
+                if r[3] in ("Ok", "Some", "Continue"):
+                    if kind == "try_fold":
+                        fr[3] = r[4][0]
+                    act.block = 0
+                    return [st]
+                return self.native_return(st, act, r, w)
+            d = ("discr", r)
+            good = 1 if rty.startswith("core::option::Option") else 0
+            out = []
+            for val in (good, 1 - good):
+                s2 = st.fork()
+                if not s2.constrain_in(d, [val]):
+                    continue
+                s2.decisions = s2.decisions + ((d, val, w),)
+                a2 = s2.stack[-1]
+                if val == good:
+                    if kind == "try_fold":
+                        s2.frames[fid][3] = ("unwrap", r)
+                    a2.block = 0
+                    out.append(s2)
+                else:
+                    out.extend(self.native_return(s2, a2, r, w))
+            return out
+        raise Unsupported("native frame in block %r" % (act.block,))
+
+    def try_output(self, rty, v):
+        from models import ok, some
+        if rty.startswith("core::option::Option"):
+            return some(self, v)
+        if rty.startswith("core::result::Result"):
+            return ok(self, v)
+        raise Unsupported("Try::from_output for %s" % rty[:40])
+
     def step_block(self, st):
         """Execute one basic block of the top activation; returns successor states / finished paths."""
         act = st.stack[-1]
+        if isinstance(act, NativeActivation):
+            return self.native_step(st, act)
         body = act.body
         blk = body["blocks"][act.block]
         fid = act.fid
@@ -968,6 +1120,8 @@ class Evaluator:
         raise Unsupported("terminator %s at %s" % (t.get("s", k), w))
 
     def concrete_loop(self, st, act, h):
+        if isinstance(act, NativeActivation):
+            return False
         t = act.body["blocks"][h]["term"]
         if t["t"] != "call" or len(t["args"]) != 1:
             return False
@@ -1395,6 +1549,8 @@ class Evaluator:
             adopt_state(s3, ps)
             if kind == "panic":
                 out.append(Path("panic", None, s3, val))
+            elif isinstance(val, tuple) and val and val[0] == "fork":
+                out.extend(self.apply_results(CallInfo(self, s3, s3.stack[-1], ci.fnj, ci.name, ci.args, ci.dest, ci.target, ci.w), val))
             else:
                 out.extend(self.finish_call(s3, s3.stack[-1], ci.dest, ci.target, val, ci.w))
         return out
@@ -1423,6 +1579,9 @@ class Evaluator:
                     if isinstance(val, tuple) and val and val[0] == "multi":
                         out.extend(self.apply_multi(ci, s2, val))
                         continue
+                    if isinstance(val, tuple) and val and val[0] == "fork":
+                        out.extend(self.apply_results(CallInfo(self, s2, a2, ci.fnj, ci.name, ci.args, ci.dest, ci.target, ci.w), val))
+                        continue
                 if isinstance(val, tuple) and val and val[0] == "panic!":
                     s2.emit(("panic", val[1], (), ci.w))
                     out.append(Path("panic", None, s2, val[1]))
@@ -1434,6 +1593,8 @@ class Evaluator:
             return [Path("panic", None, st, res[1])]
         if isinstance(res, tuple) and res and res[0] == "multi":
             return self.apply_multi(ci, st, res)
+        if isinstance(res, tuple) and res and res[0] == "native":
+            return self.push_native(ci, res[1], res[2], res[3], res[4])
         if isinstance(res, tuple) and res and res[0] == "suspend":
             return [Path("suspended", None, st, ci)]
         if isinstance(res, tuple) and res and res[0] == "inline":
